@@ -102,9 +102,9 @@ def c19():
         Leg("miri-base", "c19", shards=(1, 4), label="miri-base:c19", tiers=("thorough",), timeout=MIRI_T),
         Leg("miri-avx2", "c19", shards=(1, 4), label="miri-avx2:c19", tiers=("thorough",), timeout=MIRI_T),
         Leg("cli", "cli_c19", fn=cli_c19.run, label="cli:c19"),
-        Leg("asan-cli", "cli_c19", fn=cli_c19.run, label="asan-cli:c19", tiers=("thorough",), args={"fraction": 0.25}, seed_offset=1000),
+        Leg("asan-cli", "cli_c19", fn=cli_c19.run, label="asan-cli:c19", tiers=("thorough",), args={"fraction": 0.04, "no_deep": True}, seed_offset=1000),
         Leg("cli", "cli_c19", fn=cli_c19.run, label="valgrind-cli:c19", tiers=("thorough",), seed_offset=2000,
-            args={"fraction": 0.012, "no_deep": True, "wrapper": ["valgrind", "-q", "--error-exitcode=99", "--exit-on-first-error=no"]}),
+            args={"fraction": 0.006, "no_deep": True, "wrapper": ["valgrind", "-q", "--error-exitcode=99", "--exit-on-first-error=no"]}),
     ])
 
 
@@ -406,7 +406,7 @@ def c30():
         Leg("asan-lib", "c30", shards=(2, 8), tiers=("thorough",), crash_is_violation=True, timeout=(600, 3000), seed_offset=700, args={"no_caselog": 1}),
         Leg("miri-base", "c30", shards=(1, 2), tiers=("thorough",), timeout=MIRI_T),
         Leg("cli", "cli_c30", fn=_lazy("cli_c30"), label="cli:c30"),
-        Leg("asan-cli", "cli_c30", fn=_lazy("cli_c30"), label="asan-cli:c30", tiers=("thorough",), args={"fraction": 0.2}, seed_offset=900),
+        Leg("asan-cli", "cli_c30", fn=_lazy("cli_c30"), label="asan-cli:c30", tiers=("thorough",), args={"fraction": 0.1}, seed_offset=900),
     ])
 
 
